@@ -428,6 +428,9 @@ func TimeToUint64(value time.Time) uint64 {
 	switch {
 	case unixSeconds > MaxNanoTimestampInt64Seconds:
 		unixNano = math.MaxInt64
+	case unixSeconds == MaxNanoTimestampInt64Seconds && unixNano < 0:
+		// the seconds still fit but the nanoseconds within the last second overflowed the int64
+		unixNano = math.MaxInt64
 	case unixSeconds < 0 || unixNano < 0:
 		unixNano = 0
 	}
